@@ -548,7 +548,8 @@ pub fn rand_step(rng: &mut Rng, g: &Grid, invalid: bool, copy_ok: bool, conversi
         let axis = if rng.chance(1, 2) { Axis::Row } else { Axis::Col };
         let (dim, line) = if axis == Axis::Row { (r, c) } else { (c, r) };
         let push = rng.chance(1, 3);
-        return Step::InsLying { axis, idx: if push { dim } else { rng.below(dim + 1) }, real_len: if c == 0 { rng.below(4) } else { line }, lie: rng.below(6) as u8, push };
+        let real_len = if c == 0 { rng.below(4) } else { match rng.below(4) { 0 => line.saturating_sub(1), 1 => line + 1, _ => line } };
+        return Step::InsLying { axis, idx: if push { dim } else { rng.below(dim + 1) }, real_len, lie: rng.below(6) as u8, push };
     }
     if roll < 14 && !big {
         let idx = if bad { r + 1 + rng.below(2) } else { rng.below(r + 1) };
